@@ -32,6 +32,13 @@ theorem find?_foldl_unlock (op : OutPoint) : ∀ (l : List OutPoint) (a : Store)
     · have : ¬ op = x := fun h => e h.symm
       simp [e, this]
 
+theorem nodup_foldl_unlock : ∀ (l : List OutPoint) (a : Store), NodupKeys a.locked →
+    NodupKeys (l.foldl unlockOutputRaw a).locked := by
+  intro l
+  induction l with
+  | nil => intro a h; exact h
+  | cons x t ih => intro a h; exact ih _ (nodupKeys_erase _ _ h)
+
 theorem good_dropLeases {s : Store} {L : Ledger} (hg : Good s L) (t : Tx) :
     Good (t.ins.foldl unlockOutputRaw s) (dropLeases L t) := by
   have hr := hg.ref
@@ -40,9 +47,9 @@ theorem good_dropLeases {s : Store} {L : Ledger} (hg : Good s L) (t : Tx) :
   · exact wf2_of_sameMined (s := s) ⟨rfl, rfl, rfl, rfl, rfl, rfl⟩ hg.wf2.wf.nodupUC hg.wf2
   · have hl := hg.lwf
     exact ⟨hl.heights, hl.hashes, hl.creditKeys, hl.creditKnown, hl.poolNoCb, hl.noDouble, hl.parents, hl.rank,
-      hl.validRefs, hl.outsBound⟩
+      hl.validRefs, hl.outsBound, nodup_map_filter _ _ _ hl.leaseKeys⟩
   · refine ⟨hr.blocks, hr.txrecs, hr.unmined, hr.credits, hr.debits, hr.ucredits, hr.uinputs, hr.uinputsNE, ?_,
-      hr.nodupTxrecs, hr.nodupUnmined, hr.nodupDebits⟩
+      hr.nodupTxrecs, hr.nodupUnmined, hr.nodupDebits, nodup_foldl_unlock t.ins s hr.nodupLocked⟩
     intro op
     show ((t.ins.foldl unlockOutputRaw s).locked.find? op).map _ = _
     rw [find?_foldl_unlock]
@@ -62,7 +69,7 @@ theorem lwf_addCredit1 {L : Ledger} (hl0 : LWF L) {t : Tx} (c : Nat × Bool) (hk
       unfold addCredit1; simp only [hcond, if_true]
     simp only [Bool.and_eq_true, decide_eq_true_eq, Option.isNone_iff_eq_none] at hcond
     refine ⟨hl0.heights, hl0.hashes, ?_, ?_, hl0.poolNoCb, hl0.noDouble, hl0.parents, hl0.rank,
-      hl0.validRefs, hl0.outsBound⟩
+      hl0.validRefs, hl0.outsBound, hl0.leaseKeys⟩
     · rw [hL, List.map_append, List.nodup_append]
       refine ⟨hl0.creditKeys, by simp, ?_⟩
       intro a ha b hb
@@ -134,7 +141,7 @@ theorem good_addCredit_mined {s : Store} {L : Ledger} (hg : Good s L) {t : Tx} {
     have hch : chainTxs (addCredit1 L t c) = chainTxs L := rfl
     refine ⟨wf2_addCredit_mined hg.wf2 hstep hrec, lwf_addCredit1 hl c ⟨_, known_of_mined ht⟩, ?_⟩
     refine ⟨hr.blocks, hr.txrecs, hr.unmined, ?_, ?_, ?_, hr.uinputs, hr.uinputsNE, hr.leases, hr.nodupTxrecs,
-      hr.nodupUnmined, hr.nodupDebits⟩
+      hr.nodupUnmined, hr.nodupDebits, hr.nodupLocked⟩
     · intro k v
       show (s.credits.insert ⟨t.hash, bm.block, c.1⟩ ⟨amt, c.2, false, none⟩).find? k = some v ↔ _
       rw [find?_insert, mem_expCredits]
